@@ -1109,3 +1109,28 @@ def rule_flushmisc(text):
             apps.append(_app(rname, text, mm.start(), mm.end(), new, why))
             text = text[:mm.start()] + new + text[mm.end():]
     return text, apps
+
+
+def rule_workermisc(text):
+    """flush_worker_shards one-offs"""
+    apps = []
+    table = [
+        (r"for\s+(\w+)\s+in\s+\(\s*([\w.]+)\s*\.\.\s*([\w.]+\(\))\s*\)\s*\.\s*step_by\s*\(\s*([\w.]+)\s*\)\s*\{",
+         r"let mut \1_next_ = \2; while \1_next_ < \3 { let \1 = \1_next_; \1_next_ = step_next(\1_next_, \4);", "R-stepby",
+         "definition of (a..b).step_by(s) as a counting loop (Verus for-loops have no `continue`)"),
+        (r"let\s+mut\s+(\w+)\s*=\s*\1\s*\.\s*into_iter\s*\(\s*\)\s*;", r"let mut \1 = VecQueue::new(\1);", "R-iterq", "shim: a by-value Vec iterator = a queue of the remaining elements"),
+        (r"(\w+)\s*\.\s*by_ref\s*\(\s*\)\s*\.\s*take\s*\(\s*(\w+)\s*\)\s*\.\s*collect\s*::\s*<\s*Vec\s*<\s*_\s*>\s*>\s*\(\s*\)", r"\1.take_batch(\2)", "R-iterq",
+         "shim: by_ref().take(n).collect() = the next min(n, len) elements"),
+        (r"(\w+)\s*\.\s*extend\s*\(\s*entries\s*\)", r"vec_extend(&mut \1, entries.into_rest())", "R-iterq", "shim: extending with the iterator = appending what is left of it, in order"),
+        (r"(\w+)\s*\|=\s*([^;,]+);", r"let or_ = \2; \1 = \1 || or_;", "R-oreq", "`a |= b` on bools with b evaluated first = `a = a || b`"),
+        (r"(\w+)\s*\|=\s*([^;,]+),", r"{ let or_ = \2; \1 = \1 || or_; },", "R-oreq", "`a |= b` on bools with b evaluated first = `a = a || b`"),
+    ]
+    for pat, rep, rname, why in table:
+        while True:
+            mm = re.search(pat, text)
+            if not mm:
+                break
+            new = mm.expand(rep)
+            apps.append(_app(rname, text, mm.start(), mm.end(), new, why))
+            text = text[:mm.start()] + new + text[mm.end():]
+    return text, apps
